@@ -22,16 +22,34 @@ def _safe(fn, *a, **k):
         return math.nan
 
 
-def expected_lc(m):
-    """dict product -> expected levelized cost in the reported unit, from the run's own reported figures."""
+RATE_INPUTS = {'discountrate': 'Discount Rate', 'FCR': 'Fixed Charge Rate', 'inflrateconstruction': 'Inflation Rate During Construction',
+               'FIB': 'Fraction of Investment in Bonds', 'BIR': 'Inflated Bond Interest Rate', 'EIR': 'Inflated Equity Interest Rate',
+               'RINFL': 'Inflation Rate', 'CTR': 'Combined Income Tax Rate', 'GTR': 'Gross Revenue Tax Rate', 'RITC': 'Investment Tax Credit Rate',
+               'PTR': 'Property Tax Rate', 'CAPEX_heat_electricity_plant_ratio': 'CHP Electrical Plant Cost Allocation Ratio',
+               'electricity_cost_to_buy': 'Electricity Rate'}
+
+
+def expected_lc(m, inp=None):
+    """dict product -> expected levelized cost in the reported unit, from the run's own reported figures.
+    inp: the input as written (name -> text). A rate the input states as a bare number is taken from there, not from the live parameter object:
+    a run that overwrites one of its own rate inputs while calculating (and then discounts consistently with the overwritten value) must show."""
     ec, sp = m.economics, m.surfaceplant
     em, eu, cls = kind(m)
+
+    def rate(obj, attr):
+        txt = (inp or {}).get(RATE_INPUTS[attr])
+        if txt is not None:
+            try:
+                return float(str(txt).strip())
+            except ValueError:
+                pass
+        return float(V(obj, attr))
     L = int(V(sp, 'plant_lifetime'))
     C = float(V(ec, 'CCap'))
     O = float(V(ec, 'Coam'))
-    ic = float(V(ec, 'inflrateconstruction'))
-    ratio = float(V(ec, 'CAPEX_heat_electricity_plant_ratio'))
-    price_buy = float(V(sp, 'electricity_cost_to_buy'))
+    ic = rate(ec, 'inflrateconstruction')
+    ratio = rate(ec, 'CAPEX_heat_electricity_plant_ratio')
+    price_buy = rate(sp, 'electricity_cost_to_buy')
     pump = [x * price_buy / 1e6 for x in A(sp, 'PumpingkWh')]
     zero = [0.0] * L
     out = {}
@@ -39,11 +57,11 @@ def expected_lc(m):
     def lc(Cx, Ox, X, Xavg, E):
         E = [float(e) for e in E]
         if em == 1:
-            return _safe(R.lc_fcr, float(V(ec, 'FCR')), ic, Cx, Ox, Xavg, E)
+            return _safe(R.lc_fcr, rate(ec, 'FCR'), ic, Cx, Ox, Xavg, E)
         if em == 2:
-            return _safe(R.lc_std, float(V(ec, 'discountrate')), ic, Cx, Ox, X, E)
+            return _safe(R.lc_std, rate(ec, 'discountrate'), ic, Cx, Ox, X, E)
         if em == 3:
-            p = {k: float(V(ec, k)) for k in ('FIB', 'BIR', 'EIR', 'RINFL', 'CTR', 'GTR', 'RITC', 'PTR')}
+            p = {k: rate(ec, k) for k in ('FIB', 'BIR', 'EIR', 'RINFL', 'CTR', 'GTR', 'RITC', 'PTR')}
             p['ic'] = ic
             return _safe(R.lc_bicycle, p, Cx, Ox, X, E)
         raise AdapterError(f'economic model {em} not modelled')
@@ -87,7 +105,7 @@ def mon_c01(m, payload):
     fails = []
     ec, sp = m.economics, m.surfaceplant
     em, eu, cls = kind(m)
-    exp = expected_lc(m)
+    exp = expected_lc(m, input_dict(payload))
     got = {}
     nontrivial = True
     for prod, e in exp.items():
@@ -342,6 +360,7 @@ def _metrics_consistent(fails, prefix, cf, cum, rate_pct, excel, npv_r, irr_pct,
 
 def mon_c04(m, payload):
     fails = []
+    inp = input_dict(payload)
     ec, sp = m.economics, m.surfaceplant
     em, eu, cls = kind(m)
     L = int(V(sp, 'plant_lifetime'))
@@ -403,7 +422,16 @@ def mon_c04(m, payload):
     i = mv.first_mismatch(cum, R.running_sum(cf), 1e-9, 1e-9)
     if i is not None:
         fails.append(('cashflow/cumulative', f'cumulative year {i}: reported {cum[i]!r}, running sum {R.running_sum(cf)[i]!r}'))
-    rate = float(V(ec, 'FixedInternalRate'))
+    def fir(obj):
+        # the rate the input states (bare number: percent; a Discount Rate alone defines it, as a fraction), else the live parameter
+        for nm, k in (('Fixed Internal Rate', 1.0), ('Discount Rate', 100.0)):
+            try:
+                if inp.get(nm) is not None:
+                    return float(str(inp[nm]).strip()) * k
+            except ValueError:
+                pass
+        return float(V(obj, 'FixedInternalRate'))
+    rate = fir(ec)
     excel = bool(V(ec, 'discount_initial_year_cashflow'))
     pb = float(V(ec, 'ProjectPaybackPeriod'))
     _metrics_consistent(fails, 'project', cf, cum, rate, excel, float(V(ec, 'ProjectNPV')), float(V(ec, 'ProjectIRR')),
@@ -441,7 +469,7 @@ def mon_c04(m, payload):
             i = mv.first_mismatch(pcum, R.running_sum(pcf), 1e-9, 1e-9)
             if i is not None:
                 fails.append(('addon/cumulative', f'add-on cumulative year {i}: {pcum[i]!r} vs running sum {R.running_sum(pcf)[i]!r}'))
-            _metrics_consistent(fails, 'addon', pcf, pcum, float(V(ae, 'FixedInternalRate')), bool(V(ae, 'discount_initial_year_cashflow')),
+            _metrics_consistent(fails, 'addon', pcf, pcum, fir(ae), bool(V(ae, 'discount_initial_year_cashflow')),
                                 float(V(ae, 'ProjectNPV')), float(V(ae, 'ProjectIRR')), float(V(ae, 'ProjectVIR')),
                                 float(V(ae, 'ProjectMOIC')), CCap + acap, Coam + aopex, L, None)
     state = [em, eu, cls, cy, L, excel, carbon_on, addon, [round(x, 9) for x in cf[:cy + 2]], round(pb, 9)]
